@@ -202,9 +202,35 @@ impl ValGen<'_> {
                 }
                 Val::Address(a)
             }
-            Ty::String => Val::Str(u.pick(STRINGS).to_string()),
+            Ty::String => {
+                if u.bool() {
+                    Val::Str(u.pick(STRINGS).to_string())
+                } else {
+                    // random text: ASCII incl. quotes/backslashes/control characters, hex-looking, numeric-looking, non-ASCII
+                    let n = [0usize, 1, 2, 5, 31, 32, 33, 64, 100, 300][u.below(10)];
+                    let style = u.below(5);
+                    let s: String = (0..n)
+                        .map(|i| match style {
+                            0 => (0x20 + u.below(0x5f) as u8) as char,
+                            1 => b"0123456789abcdefABCDEFx"[u.below(23)] as char,
+                            2 => char::from_u32(u.below(0x3000) as u32).unwrap_or('?'),
+                            3 => {
+                                if i == 0 {
+                                    '0'
+                                } else if i == 1 {
+                                    'x'
+                                } else {
+                                    b"0123456789abcdef"[u.below(16)] as char
+                                }
+                            }
+                            _ => ['\\', '"', '\n', '\u{0}', '\u{1f}', '\u{7f}', '\u{e9}', '\u{1f600}', ' ', '/'][u.below(10)],
+                        })
+                        .collect();
+                    Val::Str(s)
+                }
+            }
             Ty::Bytes => {
-                let n = [0usize, 1, 2, 31, 32, 33, 64][u.below(7)];
+                let n = [0usize, 1, 2, 31, 32, 33, 64, 65, 100, 255, 256, 1000][u.below(12)];
                 Val::Bytes(u.bytes(n))
             }
             Ty::BytesN(n) => {
@@ -237,6 +263,9 @@ impl ValGen<'_> {
                     None => {
                         if budget == 0 || self.nodes > self.node_limit {
                             0
+                        } else if u.ratio(1, 30) && e.struct_ref().is_none() {
+                            // a long array of atomic elements now and then
+                            [16usize, 31, 32, 33, 64, 100][u.below(6)]
                         } else {
                             u.below(4)
                         }
